@@ -68,6 +68,8 @@ func fanoutRule(p *Prog, r *Report, rule string) {
 			extra++
 		}
 		r.Check(rule, base+"|unconditional", extra == 0, p.InstrPos(n), fmt.Sprintf("%d additional conditions guard the Notify call", extra))
+		exits := loopEarlyExits(n.Block())
+		r.Check(rule, base+"|no-early-exit", inLoop && len(exits) == 0, p.InstrPos(n), fmt.Sprintf("the fan-out loop is left only when the entries are exhausted (early exits: %v): a failed send must not keep the remaining subscribers from being notified", exits))
 		okWire := elem != "" && recvPath == elem+".ClientFeature.Device().Sender()" && a0 == elem+".ServerFeature.Address()" && a1 == elem+".ClientFeature.Address()" && a2 == "param:"+fn.Params[2].Name()
 		r.Check(rule, base+"|wiring", okWire, p.InstrPos(n), fmt.Sprintf("Notify on %s with (%s, %s, %s)", recvPath, a0, a1, a2))
 	}
@@ -142,3 +144,48 @@ func hasBindingRule(p *Prog, r *Report) {
 		r.Check("R6", base+"|match", nTrue > 0 && okTrue, p.Pos(fn.Pos()), "true is returned only under DeepEqual(entry.ClientFeature.Address(), remote address argument)")
 	}
 }
+
+// loopEarlyExits returns the blocks of the innermost loop around b — other than
+// the loop header — that have a successor outside the loop.
+func loopEarlyExits(b *ssa.BasicBlock) []string {
+	// header: the closest dominator of b that b can reach again (back edge target)
+	var header *ssa.BasicBlock
+	for d := b; d != nil; d = d.Idom() {
+		isHeader := false
+		for _, pr := range d.Preds {
+			if d.Dominates(pr) && blockReachesOrSame(b, pr) {
+				isHeader = true
+			}
+		}
+		if isHeader {
+			header = d
+			break
+		}
+	}
+	if header == nil {
+		return []string{"no loop"}
+	}
+	inLoop := func(x *ssa.BasicBlock) bool {
+		return header.Dominates(x) && (x == header || blockReaches(x, header))
+	}
+	var res []string
+	for _, x := range b.Parent().Blocks {
+		if x == header || !inLoop(x) {
+			continue
+		}
+		for _, sx := range x.Succs {
+			if !inLoop(sx) {
+				res = append(res, fmt.Sprintf("block %d (%s)", x.Index, x.Comment))
+			}
+		}
+		if _, isRet := x.Instrs[len(x.Instrs)-1].(*ssa.Return); isRet {
+			res = append(res, fmt.Sprintf("block %d returns", x.Index))
+		}
+		if _, isPanic := x.Instrs[len(x.Instrs)-1].(*ssa.Panic); isPanic {
+			res = append(res, fmt.Sprintf("block %d panics", x.Index))
+		}
+	}
+	return res
+}
+
+func blockReachesOrSame(a, b *ssa.BasicBlock) bool { return a == b || blockReaches(a, b) }
